@@ -2,7 +2,7 @@
    file (of the substituted body) through the very same loop, in the same state, and then restore the location. *)
 From Coq Require Import List NArith Bool Lia Arith String.
 Import ListNotations.
-Require Import Exp Proc1 Proc2 Proc3 Ctl Loop IfProofs FuelProofs.
+Require Import Exp Proc1 Proc2 Proc3 Ctl Loop Eqd IfProofs FuelProofs.
 Require PathClean.
 Open Scope N_scope.
 
